@@ -158,10 +158,10 @@ func interpret(s *spec, text string) (any, error) {
 			return string(rune(n))
 		}), nil
 	case kU16, kU32, kEnum:
-		v, err := strconv.ParseUint(text, 10, 64)
+		v, err := strconv.ParseUint(strings.Trim(text, " \t\r\n"), 10, 64)
 		return v, err
 	case kRating:
-		v, err := strconv.ParseInt(text, 10, 8)
+		v, err := strconv.ParseInt(strings.Trim(text, " \t\r\n"), 10, 8)
 		return v, err
 	case kRational:
 		i := strings.IndexByte(text, '/')
@@ -184,7 +184,20 @@ func interpret(s *spec, text string) (any, error) {
 		if n == 0 {
 			return meta.ExposureBias(0), nil
 		}
-		return meta.NewExposureBias(int16(n), int16(d)), nil
+		// the value is the fraction, whatever common factor the writer left in it ("200/100" is +2): the type packs a signed
+		// 8-bit numerator above an 8-bit denominator (its doc comment), so the fraction in lowest terms is what it can hold
+		a, b := n, d
+		if a < 0 {
+			a = -a
+		}
+		for b != 0 {
+			a, b = b, a%b
+		}
+		n, d = n/a, d/a
+		if n < -128 || n > 127 || d > 255 {
+			return nil, fmt.Errorf("bias %s does not fit the type in lowest terms (generator error)", text)
+		}
+		return meta.ExposureBias(int16(n)<<8 | int16(d)), nil
 	case kDate:
 		// XMP Date: YYYY, YYYY-MM, YYYY-MM-DD, YYYY-MM-DDThh:mmTZD, ...:ssTZD, ...:ss.sTZD (TZD optional)
 		for _, layout := range []string{"2006-01-02T15:04:05.999999999Z07:00", "2006-01-02T15:04:05.999999999", "2006-01-02T15:04Z07:00", "2006-01-02T15:04", "2006-01-02", "2006-01", "2006"} {
@@ -302,7 +315,11 @@ func compare(got, want xmp.XMP) string {
 	if near(float32(g.Exif.Aperture), float32(want.Exif.Aperture)) {
 		g.Exif.Aperture = want.Exif.Aperture
 	}
-	a, b := digest.Of(g), digest.Of(want)
+	// a bias is the fraction it stands for: "50/45" may be reported as 50/45 or as 10/9
+	w := want
+	g.Exif.ExposureBias, w.Exif.ExposureBias = lowest(g.Exif.ExposureBias), lowest(w.Exif.ExposureBias)
+	g.Aux.FlashCompensation, w.Aux.FlashCompensation = lowest(g.Aux.FlashCompensation), lowest(w.Aux.FlashCompensation)
+	a, b := digest.Of(g), digest.Of(w)
 	if a == b {
 		return ""
 	}
@@ -320,6 +337,22 @@ func compare(got, want xmp.XMP) string {
 		return fmt.Sprintf("results differ in length (%d vs %d lines)", len(la), len(lb))
 	}
 	return strings.Join(diffs, "; ")
+}
+
+// lowest returns the bias (signed 8-bit numerator above an 8-bit denominator) in lowest terms.
+func lowest(eb meta.ExposureBias) meta.ExposureBias {
+	n, d := int(int8(eb>>8)), int(uint8(eb))
+	a, b := n, d
+	if a < 0 {
+		a = -a
+	}
+	for b != 0 {
+		a, b = b, a%b
+	}
+	if a > 1 {
+		n, d = n/a, d/a
+	}
+	return meta.ExposureBias(int16(n)<<8 | int16(d))
 }
 
 func parse(b []byte) (x xmp.XMP, err error, pan string) {
@@ -586,6 +619,43 @@ func genCase(o opts) func(rt *rapid.T) Case {
 			if s.ns == "xmpMM" && rapid.IntRange(0, 5).Draw(rt, "oldprefixmm") == 0 {
 				p.NS = "xapMM"
 			}
+			if o.ext == "more-forms" {
+				switch s.k {
+				case kString:
+					// a literal '>' is ordinary character data (XML 1.0 section 2.4), also as the first character of a value
+					g := rapid.SampledFrom([]string{">", "/>", ">>", "> "}).Draw(rt, "gt")
+					switch rapid.IntRange(0, 2).Draw(rt, "gtpos") {
+					case 0:
+						p.Value = g + p.Value
+					case 1:
+						p.Value = p.Value + ">"
+					default:
+						p.Value = g + p.Value + ">"
+					}
+				case kUUID:
+					// identifiers as applications write them: the UUID follows the last ':'
+					u := p.Value[strings.LastIndexByte(p.Value, ':')+1:]
+					p.Value = rapid.SampledFrom([]string{"adobe:docid:photoshop:", "urn:uuid:", "adobe:docid:indd:", "xmp.did:", "uuid:"}).Draw(rt, "uprefix2") + u
+				case kBias:
+					// tenths and hundredths, as many cameras write them: m/dd in lowest terms fits the type, k is the common factor
+					for {
+						m, dd := rapid.IntRange(-127, 127).Draw(rt, "bm"), rapid.SampledFrom([]int{1, 2, 3, 4, 6, 10}).Draw(rt, "bdd")
+						k := rapid.SampledFrom([]int{1, 10, 20, 25, 50, 100}).Draw(rt, "bk")
+						if m != 0 && m*k <= 32767 && m*k >= -32767 && dd*k <= 32767 {
+							p.Value = fmt.Sprintf("%d/%d", m*k, dd*k)
+							if m > 0 && rapid.Bool().Draw(rt, "bplus") {
+								p.Value = "+" + p.Value
+							}
+							break
+						}
+					}
+				case kU16, kU32, kEnum, kRating:
+					if p.Elem {
+						// an indented element: the digits are followed by the white space in front of the end tag
+						p.Value += rapid.SampledFrom([]string{"\n", " ", "\n   ", "\t"}).Draw(rt, "numws")
+					}
+				}
+			}
 			if o.ext == "rating-negative" && s.k == kRating {
 				p.Value = "-1"
 			}
@@ -695,7 +765,7 @@ func seq(n int) []int {
 
 var chk = pbt.Check[Case]{Name: "xmp-roundtrip", Gen: genCase(opts{}), Eval: eval}
 var chkOver = pbt.Check[Case]{Name: "xmp-overlong-token", Gen: genCase(opts{over: true}), Eval: eval}
-var exts = []string{"ws-tab", "ws-cr", "ws-long", "rating-negative", "entities", "ws-in-tags", "standard-forms"}
+var exts = []string{"ws-tab", "ws-cr", "ws-long", "rating-negative", "entities", "ws-in-tags", "standard-forms", "more-forms"}
 var chkExt = map[string]pbt.Check[Case]{}
 
 func init() {
@@ -714,7 +784,7 @@ func TestProp(t *testing.T) {
 		"oracle: parse(serialise(record)) == record field by field by independently written text-to-value rules (floats within 2 ulp of float32, dates as instants with zone offset, arrays in document order, nothing extra); all-attribute form == all-element form; a token longer than the 1538-byte window => error. " +
 		"non-trivial = >= 4 properties, both forms present and >= 1 value of >= 120 bytes; distinct by packet bytes")
 	rec.Assume("values use what a writer can emit without escaping: no < > & quotes, no leading / trailing white space; predefined entities, TAB / CR white space, > 100 bytes between tokens and Rating -1 are extended switches checked separately (key ext:<switch>)")
-	rec.Assume("rdf:parseType structures, comments, CDATA sections and unqualified attributes are outside what the reader models and are not generated (values never begin with a literal '>' nor carry leading / trailing white space)")
+	rec.Assume("rdf:parseType structures, comments, CDATA sections and unqualified attributes are outside what the reader models and are not generated; string values carry no leading / trailing white space (the reader trims in front of element text only); switch more-forms adds literal '>' characters in values (also leading), identifiers with several ':' (adobe:docid:photoshop:, urn:uuid:), exposure bias written in tenths / hundredths (any fraction that fits the 8-bit/8-bit type in lowest terms) and white space after the digits of numeric element values")
 	rec.Rule("exhaustive shift: records drawn from VERIF_SEED, each behind 0..N bytes that precede the packet (N = 1600 quick, 3300 thorough; the reader's window is 1538 bytes): every token of the packet meets every window phase")
 	pbt.RegressDir(t, rec)
 	{
